@@ -1,6 +1,8 @@
 package main
 
 import (
+	"os"
+	"strconv"
 	"errors"
 	"fmt"
 	"runtime/debug"
@@ -284,7 +286,72 @@ func runSearch(m map[string]any) Result {
 		}
 	}
 	res.GotS = c.out.show()
+	// determinism (C15): repeated evaluation on independently rebuilt documents
+	// (fresh maps) with a fresh compilation gives the same outcome, up to the
+	// order of arrays the specification marks as unordered
+	for rep := 1; rep < repeatCount; rep++ {
+		br := &builder{carriers: b.carriers}
+		dr := br.build(doc)
+		cr := doSearch(expr, dr)
+		if cr.panicked {
+			r := fail("panic", cr.out, cr.stack)
+			r.Site = cr.site
+			return r
+		}
+		if !sameUpTo(adm, c.out, cr.out) {
+			r := fail("nondeterministic", cr.out, fmt.Sprintf("evaluation %d gave %s, the first gave %s", rep+1, cr.out.show(), c.out.show()))
+			r.Pinned = res.Pinned
+			return r
+		}
+	}
 	return res
+}
+
+var repeatCount = func() int {
+	n, _ := strconv.Atoi(os.Getenv("VERIF_REPEAT"))
+	return n
+}()
+
+// sameUpTo: two outcomes of the same case agree as far as the specification
+// demands: both errors (which fault is reported may vary when several are
+// present), or equal values; arrays the admissible value marks unordered are
+// compared as multisets; for an Open case every array is.
+func sameUpTo(adm []*TV, a, b *TV) bool {
+	if a.T == "err" || b.T == "err" {
+		return a.T == b.T
+	}
+	for _, x := range adm {
+		if x.T != "err" && x.T != "any" && x.T != "range" && eqU(x, a) {
+			return eqU(x, b)
+		}
+	}
+	for _, x := range adm {
+		if x.T == "any" {
+			// not pinned by the specification -- this includes every
+			// order-sensitive use of an unordered array (e.g. values(@)[0]),
+			// whose variation the property permits: nothing is demanded
+			return true
+		}
+	}
+	return eqU(allUnordered(a), b)
+}
+
+func allUnordered(v *TV) *TV {
+	switch v.T {
+	case "arr":
+		out := &TV{T: "arr", U: true, A: make([]*TV, len(v.A))}
+		for i, x := range v.A {
+			out.A[i] = allUnordered(x)
+		}
+		return out
+	case "obj":
+		out := &TV{T: "obj", O: make([]Mem, len(v.O))}
+		for i, m := range v.O {
+			out.O[i] = Mem{m.K, allUnordered(m.V)}
+		}
+		return out
+	}
+	return v
 }
 
 // static outcome: adm is a list of {"ok":true} / {"ok":false,"cs":[...]}
